@@ -544,7 +544,9 @@ pub const F_X2: usize = 1; // q::X {v: u8}   (twin)
 pub const F_Y: usize = 2; // q::Y (u16)
 pub const F_Y2: usize = 3; // q::Y (u16)   (twin)
 pub const F_W: usize = 4; // q::W<T> {w: T}
-pub const F_FIRST_MEMBER: usize = 5;
+pub const F_Z: usize = 5; // q::Z {v: u8}
+pub const F_Z2: usize = 6; // q::Z {v: u16}   (same path as Z, another shape: a second family)
+pub const F_FIRST_MEMBER: usize = 7;
 
 #[derive(Clone, Debug, PartialEq, Eq, Hash, Serialize, Deserialize)]
 pub enum FamTy {
@@ -564,9 +566,15 @@ pub enum FamTy {
     BoxSelf,
     Arr2U8,
     Arr3U8,
+    /// W<Option<u8>> / W<Option<u16>>: the difference sits two generic levels down
+    WOptU8,
+    WOptU16,
+    /// members of a second same-path family with two shapes
+    Z,
+    Z2,
 }
 
-pub const FAM_ALPHABET: [FamTy; 16] = [
+pub const FAM_ALPHABET: [FamTy; 20] = [
     FamTy::U8,
     FamTy::U16,
     FamTy::X,
@@ -583,6 +591,10 @@ pub const FAM_ALPHABET: [FamTy; 16] = [
     FamTy::BoxSelf,
     FamTy::Arr2U8,
     FamTy::Arr3U8,
+    FamTy::WOptU8,
+    FamTy::WOptU16,
+    FamTy::Z,
+    FamTy::Z2,
 ];
 
 pub const FAM_SMALL: [FamTy; 4] = [FamTy::X, FamTy::X2, FamTy::Y, FamTy::Y2];
@@ -606,6 +618,10 @@ impl FamTy {
             FamTy::BoxSelf => Ty::Box(b(Ty::Named(me, vec![]))),
             FamTy::Arr2U8 => Ty::Array(b(U8), 2),
             FamTy::Arr3U8 => Ty::Array(b(U8), 3),
+            FamTy::WOptU8 => Ty::Named(F_W, vec![Ty::Option(b(U8))]),
+            FamTy::WOptU16 => Ty::Named(F_W, vec![Ty::Option(b(U16))]),
+            FamTy::Z => Ty::Named(F_Z, vec![]),
+            FamTy::Z2 => Ty::Named(F_Z2, vec![]),
         }
     }
 }
@@ -659,6 +675,8 @@ impl FamState {
             Def::strukt(&["q"], "Y", &[], unnamed(vec![U16])),
             Def::strukt(&["q"], "Y", &[], unnamed(vec![U16])),
             Def::strukt(&["q"], "W", &["T"], named(vec![("w", Ty::Param(0))])),
+            Def::strukt(&["q"], "Z", &[], named(vec![("v", U8)])),
+            Def::strukt(&["q"], "Z", &[], named(vec![("v", U16)])),
         ];
         // make X / Y paths 2 segments: module q is the crate name here
         for d in defs.iter_mut() {
